@@ -475,3 +475,56 @@ Proof.
       replace (j =? c)%nat with false by (symmetry; apply Nat.eqb_neq; lia). rewrite andb_false_r. lra. }
   unfold E. rewrite Nat.eqb_refl. cbn [andb]. rewrite Hxc. lra.
 Qed.
+
+Lemma chol_spd_cols n (A : @Mx R) :
+  (forall i j, (i < n)%nat -> (j < n)%nat -> A i j = A j i) ->
+  (forall x : nat -> R, (exists i, (i < n)%nat /\ x i <> 0) ->
+       0 < rsum n (fun i => rsum n (fun j => x i * A i j * x j))) ->
+  forall c, (c <= n)%nat ->
+  exists B, chol_cols ROps c A = Some B /\ forall k, (k < c)%nat -> 0 < B k k.
+Proof.
+  intros Hsym Hpd. induction c as [|c IH]; intros Hc.
+  - exists A. split; [reflexivity|intros; lia].
+  - destruct (IH ltac:(lia)) as (B & HB & Hpos).
+    assert (Hnz : forall k, (k < c)%nat -> B k k <> 0) by (intros k Hk; specialize (Hpos k Hk); lra).
+    assert (Hinv : chol_inv A B c) by (apply chol_cols_inv; [exact HB|intros; apply Hnz; lia]).
+    pose proof (chol_pivot_pos n c A B Hsym Hpd ltac:(lia) Hinv Hnz) as Hd.
+    pose proof (chol_row_frame B c) as Hfr.
+    rewrite chol_cols_S, HB, chol_step_R. cbv zeta.
+    set (B1 := fst (chol_row ROps c B)) in *. set (d0 := snd (chol_row ROps c B)) in *.
+    replace (Rltb (B1 c c - d0) 0) with false by (symmetry; apply Rltb_false; lra).
+    eexists. split; [reflexivity|]. intros k Hk. destruct (Nat.eq_dec k c) as [->|Hne].
+    + rewrite upd_same. apply sqrt_lt_R0. exact Hd.
+    + rewrite upd_other by lia. rewrite Hfr by (left; lia). apply Hpos. lia.
+Qed.
+
+Lemma chol_spd_some : forall n (A : @Mx R),
+  (forall i j, (i < n)%nat -> (j < n)%nat -> A i j = A j i) ->
+  (forall x : nat -> R, (exists i, (i < n)%nat /\ x i <> 0) ->
+       0 < rsum n (fun i => rsum n (fun j => x i * A i j * x j))) ->
+  exists R0, cholesky ROps n A = Some R0 /\ forall k, (k < n)%nat -> 0 < R0 k k.
+Proof. intros n A Hsym Hpd. exact (chol_spd_cols n A Hsym Hpd n (le_n n)). Qed.
+
+(* contrapositive: a rejected symmetric matrix is not positive definite *)
+Lemma chol_none_not_pd : forall n (A : @Mx R),
+  (forall i j, (i < n)%nat -> (j < n)%nat -> A i j = A j i) ->
+  cholesky ROps n A = None ->
+  ~ (forall x : nat -> R, (exists i, (i < n)%nat /\ x i <> 0) ->
+       0 < rsum n (fun i => rsum n (fun j => x i * A i j * x j))).
+Proof.
+  intros n A Hsym Hnone Hpd. destruct (chol_spd_some n A Hsym Hpd) as (R0 & H & _). congruence.
+Qed.
+
+(* (5) + (4): for a symmetric positive definite matrix the factorisation succeeds and solve is exact *)
+Corollary chol_spd_solve : forall n bn (A b : @Mx R),
+  (forall i j, (i < n)%nat -> (j < n)%nat -> A i j = A j i) ->
+  (forall x : nat -> R, (exists i, (i < n)%nat /\ x i <> 0) ->
+       0 < rsum n (fun i => rsum n (fun j => x i * A i j * x j))) ->
+  exists R0, cholesky ROps n A = Some R0 /\
+    forall i j, (i < n)%nat -> (j < bn)%nat ->
+    rsum n (fun k => A i k * chol_solve ROps n bn R0 b k j) = b i j.
+Proof.
+  intros n bn A b Hsym Hpd. destruct (chol_spd_some n A Hsym Hpd) as (R0 & H & Hpos).
+  exists R0. split; [exact H|].
+  apply (chol_solve_exact n bn A R0 b Hsym H). intros k Hk. specialize (Hpos k Hk). lra.
+Qed.
